@@ -3,9 +3,10 @@
 patch="$1"; prop="$2"; tier="${3:-quick}"
 cd /repo || exit 2
 if [ -n "$(git status --porcelain --untracked-files=no)" ]; then echo "repo not clean"; exit 2; fi
-git apply "$patch" 2>/dev/null || git apply -3 "$patch" || { echo "PATCH DOES NOT APPLY"; git checkout -- .; exit 2; }
+git apply "$patch" 2>/dev/null || git apply -3 "$patch" 2>/dev/null || { echo "PATCH DOES NOT APPLY"; git reset -q --hard HEAD; exit 2; }
+if [ -n "$(git diff --name-only --diff-filter=U)" ]; then echo "PATCH DOES NOT APPLY (conflict)"; git reset -q --hard HEAD; exit 2; fi
 cd /verif && ./check "$prop" --tier "$tier" > /tmp/trymut.$$.out 2>&1; rc=$?
-git -C /repo reset -q; git -C /repo checkout -- .
+git -C /repo reset -q --hard HEAD
 grep -E "^VIOLATION|^INFRA|^KNOWN|key=" /tmp/trymut.$$.out | cut -c1-400 | head -12
 echo "trymut: $patch on $prop ($tier) -> rc=$rc"
 rm -f /tmp/trymut.$$.out
